@@ -463,7 +463,7 @@ def arms(tier):
 
 
 MIN_CLASS_COUNTS = {"merge:more-than-50-in-one-document": 60, "well-shaped:with-merge": 600, "well-shaped:with-merge-list>=2": 200, "ill-shaped:unhashable key": 100}
-REQUIRED_CLASSES = ["directive:%YAML-1.2", "merge", "merge:list>=2", "merge:alias", "merge:several-keys", "alias-to:map", "alias-to:maplist", "set",
+REQUIRED_CLASSES = ["read-by-base-loaders-first", "directive:%YAML-1.2", "merge", "merge:list>=2", "merge:alias", "merge:several-keys", "alias-to:map", "alias-to:maplist", "set",
                     "omap", "pairs", "quoted-merge-key", "complex-key", "well-shaped:with-merge", "well-shaped:with-merge-list>=2", "dup-key"]
 
 
